@@ -64,7 +64,14 @@ class C08(SCheck):
             ops.append(gen.f_op("dst/unrelated", 77, pat=5))
         order = [p for p, _ in srcs]
         r.shuffle(order)
-        inv = gen.mk_inv(order, "dst", driver=driver, workers=workers, block_size=bs, r=True, n=True)
+        extra = {}
+        if r.random() < 0.3:
+            # option combinations: -n together with backups must still leave existing entries alone
+            extra["backup"] = r.choice(["numbered", "auto"])
+            if extra["backup"] == "auto":
+                for (p, k) in srcs[:2]:
+                    ops.append(gen.f_op("dst/%s.~%d~" % (p.split("/")[-1], r.choice([1, 4])), 5, pat=2))
+        inv = gen.mk_inv(order, "dst", driver=driver, workers=workers, block_size=bs, r=True, n=True, **extra)
         return {"setup": ops, "steps": [{"inv": inv}], "max_events": 300000}
 
     def gen_plans(self, r, case, k):
